@@ -44,6 +44,29 @@ theorem reachable_inv {c : Cfg} (hc : WF c) {s : State} (h : Reachable c s) : In
   obtain ⟨sched, rfl⟩ := h
   exact inv_run sched (inv_init c hc.out hc.nw hc.nt)
 
+/-- in a stuck state nobody is blocked on the pool mutex: its holder (a worker at the head of its loop) could move; so
+every thread is disabled for a reason of its own program counter -/
+theorem stuck_enabledPc {c : Cfg} (hc : WF c) {s : State} (h : Reachable c s) (hst : Stuck c s) (t : Nat)
+    (ht : t < c.nt) : enabledPc s t = false := by
+  have hi := reachable_inv hc h
+  have hen := hst t ht
+  unfold enabled at hen
+  split at hen
+  · exfalso
+    cases hm : s.mx with
+    | none => rw [hm] at hen; simp at hen
+    | some u =>
+      have hu := (hi.m_own u).1 hm
+      have hut : u < c.nt := by
+        by_cases hut : u < c.nt
+        · exact hut
+        · have hd := hi.t_out u (by omega)
+          rcases hu with h1 | h1 <;> rw [hd] at h1 <;> cases h1
+      have henu := hst u hut
+      unfold enabled enabledPc at henu
+      rcases hu with h1 | h1 <;> simp [h1, Pc.wantsLock] at henu
+  · exact hen
+
 /-- **Never twice.** In every reachable state a submission was executed at most once, and executed or
 cancelled/lost at most once in total; its closure was invoked or destroyed at most once. -/
 theorem c11_never_twice {c : Cfg} (hc : WF c) {s : State} (h : Reachable c s) (j : Nat) :
@@ -77,8 +100,8 @@ theorem c11_stop_terminates {c : Cfg} (hc : WF c) {s : State} (h : Reachable c s
   have key : ∀ t, t < c.nt → s.pc t ≠ Pc.done →
       s.pc t = Pc.joinBlocked ∧ ∃ u rest, s.tmp t = u :: rest ∧ s.pc u ≠ Pc.done := by
     intro t ht hnd
-    have hen := hst t ht
-    unfold enabled at hen
+    have hen := stuck_enabledPc hc h hst t ht
+    unfold enabledPc at hen
     split at hen
     · rename_i hpc; exact absurd hpc hnd
     · rename_i hpc; exact absurd hpc (hi.s_nostuck t)
@@ -120,8 +143,8 @@ theorem c11_stop_blocked_only_by_user_waits {c : Cfg} (hc : WF c) {s : State} (h
   have key : ∀ t, t < c.nt → s.pc t = Pc.done ∨ (∃ f, s.pc t = Pc.waitFlag f ∧ s.flag f = false) ∨
       (s.pc t = Pc.joinBlocked ∧ ∃ u rest, s.tmp t = u :: rest ∧ s.pc u ≠ Pc.done) := by
     intro t ht
-    have hen := hst t ht
-    unfold enabled at hen
+    have hen := stuck_enabledPc hc h hst t ht
+    unfold enabledPc at hen
     split at hen
     · rename_i hpc; exact Or.inl hpc
     · rename_i hpc; exact absurd hpc (hi.s_nostuck t)
@@ -162,7 +185,7 @@ theorem c11_no_stranded_job {c : Cfg} (hc : WF c) {s : State} (h : Reachable c s
   have hcheck : s.pc w ≠ Pc.wCvCheck := by
     intro hpc
     by_cases hw : w < c.nt
-    · have := hst w hw; unfold enabled at this; rw [hpc] at this; cases this
+    · have := stuck_enabledPc hc h hst w hw; unfold enabledPc at this; rw [hpc] at this; cases this
     · have := hlt w (by omega); rw [hpc] at this; cases this
   refine ⟨?_, hcheck⟩
   intro hpc
@@ -170,8 +193,8 @@ theorem c11_no_stranded_job {c : Cfg} (hc : WF c) {s : State} (h : Reachable c s
     by_cases hw : w < c.nt
     · exact hw
     · have := hlt w (by omega); rw [hpc] at this; cases this
-  have hen := hst w hw
-  unfold enabled at hen
+  have hen := stuck_enabledPc hc h hst w hw
+  unfold enabledPc at hen
   rw [hpc] at hen
   have hwk : s.woken w = false := by simpa using hen
   have hwq : w ∈ s.waitq := by
@@ -192,15 +215,17 @@ theorem c11_no_stranded_job {c : Cfg} (hc : WF c) {s : State} (h : Reachable c s
       · exact hut
       · exfalso
         have hd := hlt u (by omega)
-        rcases hu with h1 | h1
+        rcases hu with h1 | h1 | h1
         · rcases hi.s_woken u h1 with h2 | h2 <;> rw [hd] at h2 <;> cases h2
         · rw [hd] at h1; cases h1
-    have henu := hst u hut
-    unfold enabled at henu
-    rcases hu with h1 | h1
+        · rw [hd] at h1; cases h1
+    have henu := stuck_enabledPc hc h hst u hut
+    unfold enabledPc at henu
+    rcases hu with h1 | h1 | h1
     · rcases hi.s_woken u h1 with h2 | h2
       · rw [h2] at henu; cases henu
       · rw [h2, h1] at henu; cases henu
+    · rw [h1] at henu; cases henu
     · rw [h1] at henu; cases henu
 
 /-- When a pool that nobody stopped becomes quiescent, all clients are finished, all workers sleep on the condition
@@ -214,8 +239,8 @@ theorem c11_idle_quiescence {c : Cfg} (hc : WF c) {s : State} (h : Reachable c s
   -- a non-enabled thread is finished or asleep and not notified
   have key : ∀ t, t < c.nt → s.pc t = Pc.done ∨ (s.pc t = Pc.wCvBlocked ∧ s.woken t = false) := by
     intro t ht
-    have hen := hst t ht
-    unfold enabled at hen
+    have hen := stuck_enabledPc hc h hst t ht
+    unfold enabledPc at hen
     split at hen
     · rename_i hpc; exact Or.inl hpc
     · rename_i hpc; exact absurd hpc (hi.s_nostuck t)
